@@ -315,6 +315,26 @@ def fee_spill_scenarios(n):
     return rows
 
 
+def solvent_liquidation_scenarios(n):
+    """DECIMALS = 2 world (liquidation fee 1-2 % < min collateral factor 5 %): a position opened at 10x is made
+    liquidatable by a 4 % adverse move while its collateral still covers the loss, the order fee AND the
+    liquidation fee; it is then closed with the liquidation flag (fees fully payable in the collateral token)"""
+    rows = []
+    for k in range(n):
+        fe = 2 if k % 2 == 0 else 3
+        slot = (2, 4, 6, 8)[k % 4]                      # short-token collateral (price 1): long, short, long, short
+        long = slot in (2, 6)
+        size = 1000 + 100 * (k % 4)
+        rows += [dict(RESET, d=2, fe=fe, fp=4, bp=2 if k % 3 else 1, ip=0), {"op": "init"},
+                 {"op": "price", "imin": 100, "lmin": 100, "smin": 1}, {"op": "deposit", "l": 100, "s": 10000},
+                 {"op": "increase", "pos": slot, "size": size, "coll": size // 10 + (k % 3)},
+                 {"op": "update_borrowing"}, {"op": "tick", "dt": 1},
+                 {"op": "decrease", "pos": slot, "size": size, "liq": True, "ins": True},          # healthy: must be refused
+                 {"op": "price", "imin": 96 if long else 104, "lmin": 96 if long else 104, "smin": 1},
+                 {"op": "decrease", "pos": slot, "size": size, "liq": True, "ins": k % 2 == 0}]
+    return rows
+
+
 def judge(ctx, pid, batch, stats):
     """validate one batch; report this property's monitor failures; collect statistics"""
     fails, drifts, _ = ctx.validate_trace(TRACE, batch.trace, cfg=batch.cfg)
@@ -376,6 +396,8 @@ def collect(st, ev):
                     st["liquidations"] += 1
                 if r["insolv"]:
                     st["insolvent"] += 1
+                if a["liq"] and not r["insolv"] and r["fee_ex"] > 0 and e["c"].get("l_factor", 0) > 0 and e["c"].get("l_recv") != e["unit"] // 2:
+                    st["solvent_liquidation_with_liq_fee"] += 1
                 p1 = e["ps"][a["pos"] - 1]
                 if (p1["long"] != p1["cl"] and not r["insolv"] and "swap" not in e["cbs"] and r["pnl"] > 0
                         and secondary_spill(e) > 0 and r["hold"][1] == 0):
@@ -486,6 +508,9 @@ def run(ctx, pid):
         need(len(pats) > 100, "MC_FundingBack printed only %d patterns" % len(pats))
         batches.append(replay_batch(ctx, "funding_scenarios", funding_scenarios(pats, 250 if q else 2500)))
         batches.append(replay_batch(ctx, "fee_spill", fee_spill_scenarios(60 if q else 600)))
+        b2 = replay_batch(ctx, "solvent_liq", solvent_liquidation_scenarios(40 if q else 400))
+        b2.cfg = "Trace_MarketHist_d2"
+        batches.append(b2)
     elif pid == "C12":
         r = ctx.model_check("MC_Funding", cfg="MC_Funding" if q else "MC_Funding_thorough", workers=8,
                             timeout=1500, coverage=False)
@@ -540,6 +565,7 @@ def run(ctx, pid):
                 "USD and tokens, resulting position); histories: TLC-printed scripts of MC_OIBook replayed under 3 fee/"
                 "impact configurations + seeded random histories over 8 position slots (2 owners x side x collateral)")
     elif pid == "C08":
+        need_v(st["solvent_liquidation_with_liq_fee"] > 5, "C08: no solvent liquidation with a liquidation fee whose fees were booked (%d)" % st["solvent_liquidation_with_liq_fee"])
         need_v(st["fees_paid_from_secondary"] > 5, "C08: no close paid its fees partly from the secondary output (%d)" % st["fees_paid_from_secondary"])
         need_v(st["funding_collected"] > 5 and st["funding_claimed"] > 5 and st["backed_states"] > 50 and ops[("swap", True)] > 0
              and ops[("withdraw", True)] > 0, "C08 history classes missing: collected=%d claimed=%d backed_states=%d" % (
